@@ -3,6 +3,7 @@
 package props
 
 import (
+	"strings"
 	"bytes"
 	"crypto/sha1"
 	"encoding/hex"
@@ -181,16 +182,28 @@ func c13Chunks(body []byte, pat int) [][]byte {
 	return out
 }
 
+// rewrite histories (kind "recrash"): the entry of one key is written with another body first, and the
+// second writer works on the device the first one left (both set per case under c13Mu)
+var c13BodyOverride = -1
+var c13KeepDevice = false
+
 var c13Pattern = 0 // write pattern used by c13Write (set per case under c13Mu)
 
 func c13Write(id int, faults map[int]faultos.Fault) (fs *faultos.FS, name string, reported error, panicked string) {
-	fs = faultos.Reset()
+	if c13KeepDevice {
+		fs = faultos.Current
+	} else {
+		fs = faultos.Reset()
+	}
 	for k, f := range faults {
 		fs.Faults[k] = f
 	}
 	rsum, dsum := c13Sums(id)
 	name = c13Name(rsum, dsum)
 	body := c13Body(id)
+	if c13BodyOverride >= 0 {
+		body = c13Body(c13BodyOverride)
+	}
 	if p, msg := engine.Safely(func() {
 		// mirrors cmd/gts/io.go: TryCache removes the entry when CreateLevel reports an error;
 		// ioDelegate.Close removes it when cache.File.Close reports one; a failing Write aborts
@@ -473,6 +486,33 @@ func c13Eval(c c13Case) (ok bool, sig, detail string) {
 			img = []byte{} // created, nothing written
 		}
 		return c13JudgeStrict(img, c.Body, fmt.Sprintf("body %d, crash image keeping writes %v of %d (write %d torn to %d bytes)", c.Body, c.Keep, len(log), c.Torn, c.TornN), !bytes.Equal(img, file))
+	case "recrash":
+		// non-initial state: a finished entry for the same key holding another body (c.Off) is already on the
+		// device; the entry is rewritten and the writer dies at its I/O operation c.Op (a write keeps c.TornN bytes)
+		c13BodyOverride = c.Off
+		fs0, name, rep0, pan0 := c13Write(c.Body, nil)
+		c13BodyOverride = -1
+		if rep0 != nil || pan0 != "" {
+			return false, "baseline", fmt.Sprintf("fault-free write failed: %v %s", rep0, pan0)
+		}
+		n0 := len(fs0.Ops)
+		c13KeepDevice, c13Pattern = true, c.Pat
+		_, _, rep1, pan1 := c13Write(c.Body, map[int]faultos.Fault{n0 + c.Op: {Kind: "crash", Short: c.TornN}})
+		c13KeepDevice, c13Pattern = false, 0
+		what := fmt.Sprintf("entry of key %d holding body %d rewritten with body %d (write pattern %d), writer dies at its I/O operation %d (%v; a write keeps %d bytes)", c.Body, c.Off, c.Body, c.Pat, c.Op, opName(fs0, n0+c.Op), c.TornN)
+		if pan1 != "" && !strings.Contains(pan1, faultos.CrashMsg) {
+			return false, "write-panic", what + ": the writer panics: " + pan1
+		}
+		img, exists := fs0.Files[name]
+		if !exists {
+			return true, "", ""
+		}
+		img = append([]byte(nil), img...)
+		if pan1 == "" && rep1 == nil {
+			// the operation index lies beyond the writer's last operation: the rewrite completed
+			return c13JudgeStrict(img, c.Body, what+" (completed)", false)
+		}
+		return c13JudgeStrict(img, c.Body, what, !bytes.Equal(img, file))
 	case "fault":
 		faults := map[int]faultos.Fault{c.Op: {Kind: c.FKind, Short: c.Short}}
 		if c.Op2 > 0 {
@@ -515,7 +555,7 @@ func opName(fs *faultos.FS, k int) string {
 func init() {
 	register(&Check{ID: "C13", Level: "fault_enumeration", Quick: 150 * time.Second, Thor: 30 * time.Minute,
 		Run: func(r *engine.Run) bool {
-			r.Rule = "real cmd/cache on an in-memory device: for bodies {empty, 1 byte, 100 bytes, 3000 bytes, 6000 and 40000 bytes incompressible, 120000 bytes compressible, bodies whose stored length is exactly 4096 / 8192 / 32768 bytes, 1.3 MB incompressible (sparse offsets) (+70 KB, 300 KB and stored length 65536 in thorough)}, each read back with 10 buffer sizes (1 byte .. 1 MiB, io.Copy): every byte offset x every non-zero xor mask (small bodies; single-bit masks for large), every truncation length, appended tails of 1..64 bytes, entries stored under a foreign key and with foreign header digests; every crash image of the write log: every subset of writes kept (nothing is synced) x the last kept write torn at every length; every single fault (error, short write/read) at every I/O operation of the write protocol and every pair; distinct key = (kind, body, parameters); non-trivial = image differs from the finished file"
+			r.Rule = "real cmd/cache on an in-memory device: for bodies {empty, 1 byte, 100 bytes, 3000 bytes, 6000 and 40000 bytes incompressible, 120000 bytes compressible, bodies whose stored length is exactly 4096 / 8192 / 32768 bytes, 1.3 MB incompressible (sparse offsets) (+70 KB, 300 KB and stored length 65536 in thorough)}, each read back with 10 buffer sizes (1 byte .. 1 MiB, io.Copy): every byte offset x every non-zero xor mask (small bodies; single-bit masks for large), every truncation length, appended tails of 1..64 bytes, entries stored under a foreign key and with foreign header digests; every crash image of the write log: every subset of writes kept (nothing is synced) x the last kept write torn at every length; every single fault (error, short write/read) at every I/O operation of the write protocol and every pair; rewrite histories (a finished entry of the same key with another body already on the device, the second writer dying at every one of its I/O operations, writes torn at 0/1/30/all bytes, two write patterns); distinct key = (kind, body, parameters); non-trivial = image differs from the finished file"
 			complete := true
 			eval := func(c c13Case, size int) {
 				r.Evals.Add(1)
@@ -686,6 +726,22 @@ func init() {
 						}
 					}
 					r.Note(fmt.Sprintf("body %d: write log has %d entries: prefixes and single drops only (not all subsets)", b, L))
+				}
+				// rewrite histories: every other small body as the prior entry of the same key, the writer dying at
+				// every one of its I/O operations (writes torn at 0, 1, half and all-but-one of their bytes)
+				for prior := 0; prior < len(logs); prior++ {
+					if prior == b || logs[prior] > 10 {
+						continue
+					}
+					for _, pat := range []int{0, 3} {
+						// operation 0 is the writer's create: dying there leaves the old entry untouched, so k starts at 1
+						for k := 1; k <= opsN[b]+1; k++ {
+							for _, t := range []int{0, 1, 30, 1 << 20} {
+								r.States.Add(1)
+								eval(c13Case{Kind: "recrash", Body: b, Off: prior, Op: k, TornN: t, Pat: pat}, 900)
+							}
+						}
+					}
 				}
 				// faults: every single operation, every pair
 				N := opsN[b]
